@@ -13,11 +13,11 @@ set_option linter.unusedSimpArgs false
 
 /-! ### digits -/
 
-theorem digit_facts : ∀ n < 10, (digitChar n).isDigit = true ∧ digitChar n ≠ '%' ∧ digitChar n ≠ '[' ∧ digitChar n ≠ ')' ∧
-    digitChar n ≠ '(' ∧ digitChar n ≠ '|' ∧ digitChar n ≠ '\n' ∧ (digitChar n).toNat ≤ 127 ∧
-    pyIntLit [digitChar n] = .ok n ∧ pyStrIn [digitChar n] bondAfterNodeChars = false := by decide +kernel
+theorem digit_facts : ∀ n < 10, (ringDigit n).isDigit = true ∧ ringDigit n ≠ '%' ∧ ringDigit n ≠ '[' ∧ ringDigit n ≠ ')' ∧
+    ringDigit n ≠ '(' ∧ ringDigit n ≠ '|' ∧ ringDigit n ≠ '\n' ∧ (ringDigit n).toNat ≤ 127 ∧
+    pyIntLit [ringDigit n] = .ok n ∧ pyStrIn [ringDigit n] bondAfterNodeChars = false := by decide +kernel
 
-theorem two_digits : ∀ n < 100, pyIntLit [digitChar (n / 10), digitChar (n % 10)] = .ok n := by decide +kernel
+theorem two_digits : ∀ n < 100, pyIntLit [ringDigit (n / 10), ringDigit (n % 10)] = .ok n := by decide +kernel
 
 def MarkOk (m : RMark) : Prop := m.order ≤ 4 ∧ (if m.pct then m.id < 100 else m.id < 10)
 
@@ -107,7 +107,7 @@ theorem scan_mark_pct (m : RMark) (hm : MarkOk m) (hp : m.pct = true) (c : Char)
   simp only [hp, if_true, List.append_assoc, List.cons_append, List.nil_append]
   rw [scan_symText m.order hm.1, scan_pct, scan_digit_multi _ _ _ _ _ _ a1 a2, scan_digit_multi _ _ _ _ _ _ b1 b2,
     scan_close_multi c rest _ _ _ _ hc]
-  have : pyIntLit (List.drop 1 (['%'] ++ [digitChar (m.id / 10)] ++ [digitChar (m.id % 10)])) = .ok m.id :=
+  have : pyIntLit (List.drop 1 (['%'] ++ [ringDigit (m.id / 10)] ++ [ringDigit (m.id % 10)])) = .ok m.id :=
     two_digits m.id hid
   rw [this]
   simp only [Except.bind, occ]
@@ -180,8 +180,8 @@ theorem markText_chars (m : RMark) (hm : MarkOk m) : ∀ c ∈ markText m,
         simp [symbolToOrder, List.lookup, ne _ h1, ne _ h2, ne _ h3, ne _ h4, ne _ h5] at hs
       rcases this with rfl | rfl | rfl | rfl | rfl <;> decide
   · unfold markDigits at h
-    have dig : ∀ n < 10, digitChar n ≠ '[' ∧ digitChar n ≠ ')' ∧ digitChar n ≠ '(' ∧ digitChar n ≠ '|' ∧
-        digitChar n ≠ '\n' ∧ (digitChar n).toNat ≤ 127 := by
+    have dig : ∀ n < 10, ringDigit n ≠ '[' ∧ ringDigit n ≠ ')' ∧ ringDigit n ≠ '(' ∧ ringDigit n ≠ '|' ∧
+        ringDigit n ≠ '\n' ∧ (ringDigit n).toNat ≤ 127 := by
       intro n hn
       obtain ⟨_, _, d3, d4, d5, d6, d7, d8, _⟩ := digit_facts n hn
       exact ⟨d3, d4, d5, d6, d7, d8⟩
@@ -209,7 +209,7 @@ theorem marksText_chars : ∀ (ms : List RMark), MarksOk ms → ∀ c ∈ marksT
 
 /-- the last character of a non-empty marker text is a digit -/
 theorem marksText_last : ∀ (ms : List RMark), MarksOk ms → ms ≠ [] →
-    ∃ n, n < 10 ∧ (marksText ms).getLast? = some (digitChar n)
+    ∃ n, n < 10 ∧ (marksText ms).getLast? = some (ringDigit n)
   | [], _, h => absurd rfl h
   | [m], hok, _ => by
     have hm := hok.1
@@ -247,7 +247,7 @@ theorem scan_rest (ms : List RMark) (hms : MarksOk ms) (gap : Str) (o : Nat) (hg
       have hL0 : (L == 0) = false := by simp; omega
       rw [hL0]
       simp only [Bool.false_eq_true, if_false]
-      have : (marksText ms ++ x)[L - 1]? = some (digitChar n) := by
+      have : (marksText ms ++ x)[L - 1]? = some (ringDigit n) := by
         rw [List.getElem?_append_left (by omega), hL, ← List.getLast?_eq_getElem?]; exact hl
       rw [this]
       exact (digit_facts n hn).2.2.2.2.2.2.2.2.2
